@@ -44,6 +44,8 @@ func calleeIs(p *eng.Prog, in ssa.Instruction, keys ...string) bool {
 
 func runC07(c *eng.Ctx) {
 	p := c.P
+	writtenMetricStaysActive(c)
+	closeFlushesOldestFirst(c)
 
 	// ---- 1. commit before ack, same sequences -----------------------------------------------------------
 	c.Rule("ORDER", dfT+".flushMemoryDatabase{sequence<commit<ack}", func() {
